@@ -91,7 +91,9 @@ int main() {
     static int counter = 0;
     return hv::main_loop([](In& in, Out& out) {
         const i64 mode = in.next();
-        const bool expired = in.next() != 0;
+        const i64 exflags = in.next();
+        const bool expired = (exflags & 1) != 0;
+        const bool zero_hash = (exflags & 2) != 0;      // the manifest handed to the CLI carries an all-zero content hash
         const auto P = in.bytes();
         en::Config pc{};
         pc.identity_seed = 30u; pc.relay_enabled = false; pc.storage_persistent_enabled = false;
@@ -154,6 +156,7 @@ int main() {
         ControlEndpoint local; local.script.code = in.next(); if (local.script.code == 2) local.script.bytes = in.bytes();
         local.start();
 
+        if (zero_hash) manifest.chunk_hash.fill(0);
         if (expired) manifest.expires_at = std::chrono::system_clock::now() - std::chrono::seconds(100);     // on the CLI's clock
         const auto uri = protocol::encode_manifest(manifest);
         const auto outfile = std::filesystem::temp_directory_path() / ("verif-c30-" + std::to_string(::getpid()) + "-" + std::to_string(counter++) + ".bin");
